@@ -213,7 +213,7 @@ func (u *urna) relabel(dst, src []*Statement) ([]*Statement, error) {
 		}
 		n := dst[i]
 		n.Subject = Term{Value: translateURNA(s.Subject.Value, u.canon.issued), UID: s.Subject.UID}
-		n.Predicate = s.Predicate
+		n.Predicate = Term{Value: translateURNA(s.Predicate.Value, u.canon.issued), UID: s.Predicate.UID}
 		n.Object = Term{Value: translateURNA(s.Object.Value, u.canon.issued), UID: s.Object.UID}
 		n.Label = Term{Value: translateURNA(s.Label.Value, u.canon.issued), UID: s.Label.UID}
 	}
